@@ -41,6 +41,24 @@ def check_fold(ctx, repo: Repo, pid: str):
     ctx.analysed(fi)
     where = fi.where
     tag = f"{pid}.fold"
+    # private helpers of the class that only this routine calls are spliced in (the fold / the extraction may live in helpers)
+    from ..astutil import splice_self_calls, helper_closure
+    from ..model import FunctionInfo, set_parents
+    helpers_ = sorted(helper_closure(ci, ["_calculate_N_N_array"]) - {"_calculate_N_N_array", "_get_upper_indices"})
+    if helpers_:
+        class _CI:
+            """class view in which only the exclusively-owned helpers are spliceable"""
+            name = ci.name
+
+            @staticmethod
+            def find_method(n_):
+                return ci.find_method(n_) if n_ in helpers_ else None
+        spliced_ = splice_self_calls(_CI, fi.node)
+        set_parents(spliced_)
+        for h_ in helpers_:
+            if ci.find_method(h_) is not None:
+                ctx.analysed(ci.find_method(h_))
+        fi = FunctionInfo(fi.name, fi.qualname, fi.module, spliced_, fi.cls)
     # ---------------- TRUTH
     viol, ndefs = boolean_uses(repo, fi)
     ctx.instance("TRUTH", max(1, ndefs))
@@ -162,7 +180,46 @@ def check_fold(ctx, repo: Repo, pid: str):
                 copies.append((st, t))
     ctx.instance("FOLD", len(copies))
     found_copy = False
-    for st, (m_, i_, j_) in copies:
+    # row-alias form:  for R in M:  for j, oj in MAP.items():  if R[j]: R[oj] = R[j]
+    for st in ast.walk(body):
+        if not (isinstance(st, ast.Assign) and len(st.targets) == 1 and isinstance(st.targets[0], ast.Subscript) and
+                isinstance(st.targets[0].value, ast.Name) and isinstance(st.value, ast.Subscript) and isinstance(st.value.value, ast.Name) and
+                st.targets[0].value.id == st.value.value.id):
+            continue
+        R = st.targets[0].value.id
+        row_loop = items_loop = None
+        p_ = getattr(st, "_parent", None)
+        while p_ is not None and p_ is not body:
+            if isinstance(p_, ast.For):
+                if isinstance(p_.target, ast.Name) and p_.target.id == R and isinstance(p_.iter, ast.Name) and p_.iter.id == M:
+                    row_loop = p_
+                if isinstance(p_.target, ast.Tuple) and len(p_.target.elts) == 2 and isinstance(p_.iter, ast.Call) and \
+                        isinstance(p_.iter.func, ast.Attribute) and p_.iter.func.attr == "items" and isinstance(p_.iter.func.value, ast.Name) and \
+                        (amap is None or p_.iter.func.value.id == amap):
+                    items_loop = p_
+            p_ = getattr(p_, "_parent", None)
+        if row_loop is None or items_loop is None:
+            continue
+        kvar, vvar = (x.id if isinstance(x, ast.Name) else None for x in items_loop.target.elts)
+        tcol, scol = st.targets[0].slice, st.value.slice
+        found_copy = True
+        ctx.instance("FOLD")
+        okc = isinstance(tcol, ast.Name) and isinstance(scol, ast.Name) and tcol.id == vvar and scol.id == kvar
+        ctx.check(okc, "FOLD", f"{tag}.copy", "fold: within every row the entry of column j is copied to column opp(j), (j, opp(j)) ranging over "
+                  "the antipode map", where, norm_stmt(st), witness=f"target column {src(tcol)}, source column {src(scol)}, map items ({kvar}, {vvar})")
+        ctx.ok("FOLD", f"{tag}.copy.guard", "the copy runs over the items of the antipode map (membership of j is implied)", where, src(items_loop.iter))
+        par = getattr(st, "_parent", None)
+        while par is not None and not isinstance(par, ast.If):
+            par = getattr(par, "_parent", None)
+        ctx.instance("FLOATTOL")
+        tol_ = par is not None and any((isinstance(c_, ast.Call) and src(c_.func).split(".")[-1] in ("isclose", "allclose")) for c_ in ast.walk(par.test))
+        if tol_:
+            ctx.violate("FLOATTOL", f"{tag}.copy.threshold", "the fold decides 'is there an entry' with a magnitude threshold", where, src(par.test)[:160],
+                        witness=src(par.test)[:160])
+        else:
+            ctx.ok("FLOATTOL", f"{tag}.copy.threshold", "the fold tests the presence of an entry exactly (no magnitude threshold)", where,
+                   src(par.test) if par is not None else "")
+    for st, (m_, i_, j_) in ([] if found_copy else copies):
         # target column must be map[j]
         if not (isinstance(j_, ast.Subscript) and isinstance(j_.value, ast.Name) and (amap is None or j_.value.id == amap)):
             continue
